@@ -5,14 +5,17 @@ let osym s = if s = "-" then None else Some (sym s)
 let () =
   for_each_case Sys.argv.(1) (fun f ->
     let setup = split_on ',' f.(2) in
+    (* "F": a further fork of the previous caller-side dialog: same Call-ID and local tag, its own peer tag *)
+    let owner = Array.make (List.length setup) 0 in
+    List.iteri (fun i d -> owner.(i) <- (if String.length d > 0 && d.[0] = 'F' && i > 0 then owner.(i - 1) else i)) setup;
     let entries = List.mapi (fun i d ->
       let p = Array.of_list (split_on ':' d) in
       let st, nus =
         if p.(0) = "S" then entry_new (Some (n_of_decimal p.(1))), int_of_string p.(2)
         else entry_new None, int_of_string p.(1) in
-      { e_key = { k_call_id = sym (Printf.sprintf "c%d" i);
+      { e_key = { k_call_id = sym (Printf.sprintf "c%d" owner.(i));
                   k_peer_tag = Some (sym (Printf.sprintf "p%d" i));
-                  k_local_tag = sym (Printf.sprintf "l%d" i) };
+                  k_local_tag = sym (Printf.sprintf "l%d" owner.(i)) };
         e_st = st;
         e_usages = List.init nus (fun u -> n_of_int (i * 10 + u)) }) setup in
     let key_of i = (List.nth entries i).e_key in
